@@ -649,7 +649,22 @@ fn c18_attrs(_ctx: &Ctx, r: &mut Report) {
             }
         });
     }
-    // parameter attributes are stripped from every generated signature, in every mode and position
+    // parameter attributes are stripped from every generated signature, in every mode and position, for every form of
+    // the dependency parameter
+    let mut pa_cases: Vec<(String, String)> = vec![];
+    for (g, d) in [("", "&impl Any"), ("<D: A>", "&D"), ("<D: A>", "D"), ("", "impl Any"), ("", "&App"), ("<'a, D>", "&'a D")] {
+        for asy in ["", "async "] {
+            pa_cases.push(("Tr".into(), format!("{}fn f{}(#[a0] deps: {}, #[a1] x: i32, #[a2] (y, z): (i32, i32)) {{}}", asy, g, d)));
+            if d != "&App" {
+                pa_cases.push(("Tr".into(), format!("mod m {{ pub fn g(deps: &impl Any) {{}} pub {}fn f{}(#[a0] deps: {}, #[a1] x: i32, #[a2] y: i32) {{}} }}", asy, g, d)));
+            }
+            if d.starts_with('&') && d != "&App" {
+                for sel in ["", "ref"] {
+                    pa_cases.push((sel.into(), format!("impl TrImpl for X {{ {}fn f{}(#[a0] deps: {}, #[a1] x: i32, #[a2] y: i32) {{}} }}", asy, g, d)));
+                }
+            }
+        }
+    }
     for (attr, item) in [
         ("Tr", "fn f(#[a0] deps: &impl Any, #[a1] x: i32, #[a2] y: i32, #[a3] z: i32) {}"),
         ("Tr, no_deps", "fn f(#[a1] x: i32, #[a2] y: i32) {}"),
@@ -657,7 +672,12 @@ fn c18_attrs(_ctx: &Ctx, r: &mut Report) {
         ("", "impl TrImpl for X { fn f<D>(#[a0] deps: &D, #[a1] x: i32, #[a2] y: i32, #[a3] z: i32) {} }"),
         ("ref", "impl TrImpl for X { fn f<D>(#[a0] deps: &D, #[a1] x: i32, #[a2] y: i32, #[a3] z: i32) {} }"),
         ("dyn", "impl TrImpl for X { async fn f<D>(#[a0] deps: &D, #[a1] x: i32, #[a2] y: i32) {} }"),
-    ] {
+    ]
+    .iter()
+    .map(|(a, i)| (a.to_string(), i.to_string()))
+    .chain(pa_cases.into_iter())
+    {
+        let (attr, item) = (attr.as_str(), item.as_str());
         let input = format!("#[entrait({})] {}", attr, item);
         r.guarded(&input, |r| {
             let out = expand(Variant::Entrait, attr, item);
